@@ -251,20 +251,41 @@ def c03_5(ctx, ss):
                                               "table forward, then table reverse, then database" if ok else "the three lookups are not tried in the order forward / reverse / database")
 
 
+def _collected(ff, flow):
+    """The statements that collect the source table of a CDecay, in either form:
+         A  `X.append(T)` in the main loop, `[deepcopy(t) for t in X]` afterwards      -> (stmt, T, comp)
+         B  `Y.append(deepcopy(T))` in the main loop (copy made on collection)          -> (stmt, T, None)
+    """
+    out = []
+    src = None
+    comp = None
+    for c in pf.calls_in(ff.node):
+        if txt(c.func) in ("copy.deepcopy", "deepcopy") and c.args and isinstance(c.args[0], ast.Name):
+            ds = flow.defs_of(c.args[0])
+            if len(ds) == 1 and ds[0].kind in ("comp", "for") and isinstance(ds[0].value, ast.Name):
+                src, comp = ds[0].value.id, ds[0].stmt
+    if src:
+        out = [(st, args[0], comp) for st, m, args in builder_sites(ff, flow, src) if m == "append"]
+    if not out:
+        for c in pf.calls_in(ff.node):
+            if isinstance(c.func, ast.Attribute) and c.func.attr == "append" and len(c.args) == 1 and isinstance(c.args[0], ast.Call) \
+                    and txt(c.args[0].func) in ("copy.deepcopy", "deepcopy") and c.args[0].args and enclosing(ff, c, (ast.For,)):
+                out.append((stmt_of(ff, c), c.args[0].args[0], None))
+    return out
+
+
 def c03_6(ctx, ss):
     ff, flow = fn(ss, DEC, ACC)
     WORK = "self.list_charge_conjugate_decays()"
     NAMES = canon("[get_decay_mother_name(__elem__(self._parsed_decays)) for tree in self._parsed_decays]")
     # the main loop: the one that looks each CDecay name up
     # (role: the loop that collects the trees which are deep-copied afterwards)
-    src0 = None
-    for c in pf.calls_in(ff.node):
-        if txt(c.func) in ("copy.deepcopy", "deepcopy") and c.args and isinstance(c.args[0], ast.Name):
-            ds = flow.defs_of(c.args[0])
-            if len(ds) == 1 and ds[0].kind in ("comp", "for") and isinstance(ds[0].value, ast.Name):
-                src0 = ds[0].value.id
-    apps0 = [st for st, m, args in builder_sites(ff, flow, src0) if m == "append"] if src0 else []
-    main = [lp for a0 in apps0 for lp in enclosing(ff, a0, (ast.For,))[:1]]
+    coll = _collected(ff, flow)
+    main = []
+    for st0, _, _ in coll:
+        for lp in enclosing(ff, st0, (ast.For,))[:1]:
+            if not any(lp is m_ for m_ in main):
+                main.append(lp)
     if len(main) != 1:
         raise AnchorMissing("_add_charge_conjugate_decays: the loop that collects the source table of each CDecay was not found")
     main = main[0]
@@ -275,8 +296,10 @@ def c03_6(ctx, ss):
     ok = False
     if isinstance(W, ast.ListComp) and len(W.generators) == 1 and txt(W.generators[0].iter) == WORK and txt(W.elt) == f"__elem__({WORK})":
         ifs = W.generators[0].ifs
+        # `n not in <Decay mothers>`, or `n not in <the CDecay names that are Decay mothers>` (the same for a CDecay name n)
+        DUP = canon(f"[__elem__({WORK}) for n in {WORK} if __elem__({WORK}) in {NAMES}]")
         ok = len(ifs) == 1 and isinstance(ifs[0], ast.Compare) and isinstance(ifs[0].ops[0], ast.NotIn) and txt(ifs[0].left) == f"__elem__({WORK})" \
-            and txt(ifs[0].comparators[0]) == NAMES
+            and txt(ifs[0].comparators[0]) in (NAMES, DUP)
         where_ = main
     elif txt(W) == WORK:
         removes = [c for c in pf.calls_in(ff.node) if isinstance(c.func, ast.Attribute) and c.func.attr == "remove" and txt(flow.expand(c.func.value)) == WORK]
@@ -301,26 +324,15 @@ def c03_6(ctx, ss):
         ctx.violation("C03.6", k, where(ff, where_), "CDecay names that already have a Decay block are not (exactly) the ones removed from the work list")
     # (b) source lookup inside try; append only on success; miss list in the handler
     # the list the deep copies are made from
-    src_name = None
-    for c in pf.calls_in(ff.node):
-        if txt(c.func) in ("copy.deepcopy", "deepcopy") and c.args and isinstance(c.args[0], ast.Name):
-            ds = flow.defs_of(c.args[0])
-            if len(ds) == 1 and ds[0].kind in ("comp", "for") and isinstance(ds[0].value, ast.Name):
-                src_name = ds[0].value.id
-    apps = [(st, args) for st, m, args in builder_sites(ff, flow, src_name) if m == "append"] if src_name else []
+    apps = [(st, [src_]) for st, src_, _ in coll]
     # every collected source tree is copied (no slice / filter between collection and copy)
-    dc = [c for c in pf.calls_in(ff.node) if txt(c.func) in ("copy.deepcopy", "deepcopy") and c.args and isinstance(c.args[0], ast.Name)]
-    whole = False
-    for c in dc:
-        ds = flow.defs_of(c.args[0])
-        if len(ds) == 1 and ds[0].kind in ("comp", "for") and isinstance(ds[0].value, ast.Name):
-            comp = ds[0].stmt
-            whole = not (isinstance(comp, (ast.ListComp, ast.GeneratorExp)) and any(g.ifs for g in comp.generators))
+    whole = bool(coll) and all(comp_ is None or not (isinstance(comp_, (ast.ListComp, ast.GeneratorExp)) and any(g.ifs for g in comp_.generators)) for _, _, comp_ in coll)
+    dc = [c for c in pf.calls_in(ff.node) if txt(c.func) in ("copy.deepcopy", "deepcopy")]
     if not whole:
         ctx.violation("C03.6", ckey(ff, None, "copy-all"), where(ff, dc[0] if dc else ff.node),
                       "the deep copies are not made from the whole list of collected source tables (sliced / filtered): some CDecay statements get no table")
     else:
-        ctx.holds("C03.6", ckey(ff, None, "copy-all"), where(ff, dc[0]), "every collected source table is deep-copied", 1)
+        ctx.holds("C03.6", ckey(ff, None, "copy-all"), where(ff, dc[0] if dc else ff.node), "every collected source table is deep-copied", 1)
     if not apps:
         ctx.violation("C03.6", ckey(ff, None, "source"), where(ff, ff.node), "no source table is ever collected for the CDecay statements")
         return
@@ -349,7 +361,7 @@ def c03_6(ctx, ss):
         # a CDecay whose source table does not exist is a miss: nothing is collected for it, its name goes to the miss list.
         # Forms: lookup + append inside try with handlers that record the miss; or `if name in <table index>: … else: record`.
         okm = False
-        if parts and parts[0][1] == "body" and all(any(isinstance(x, ast.Call) and txt(x.func).endswith(".append") for s_ in h.body for x in ast.walk(s_)) for h in parts[0][0].handlers):
+        if parts and parts[0][1] in ("body", "orelse") and all(any(isinstance(x, ast.Call) and txt(x.func).endswith(".append") for s_ in h.body for x in ast.walk(s_)) for h in parts[0][0].handlers):
             okm = True
         else:
             conds = [(flow.expand(e), pol) for kind, e, pol in guards.path_conditions(main, st, stop_at=main) if kind == "if"]
